@@ -53,6 +53,8 @@ class Session:
     # ------------------------------------------------------------------ solver
     def check(self, constraints, timeout_s=60):
         """-> (result in {'sat','unsat','unknown'}, model or None)"""
+        # (the thorough tier may share the machine with other thorough runs: its caps are three times the quick ones)
+        timeout_s = timeout_s * (3 if self.tier == "thorough" else 1) * float(os.environ.get("VERIF_TIMEOUT_SCALE", "1") or 1)
         s = z3.Solver()
         s.set("timeout", int(timeout_s * 1000))
         for c in constraints:
